@@ -51,6 +51,14 @@ static CMB_THREAD_LOCAL struct cmi_hashheap *event_queue = NULL;
 /* The initial capacity of the heap is 2^QUEUE_INIT_EXP items, resizing as needed */
 #define QUEUE_INIT_EXP 3
 
+#ifdef CIMBA_VERIF
+/* Read-only access to the event queue structure for verification harnesses */
+const struct cmi_hashheap *cmi_verif_event_queue(void)
+{
+    return event_queue;
+}
+#endif
+
 
 /* The memory layout of an event */
 struct event_peek {
